@@ -26,11 +26,14 @@ Record world := mkworld {
 
 Definition world0 : world := mkworld [] [] [] [] [].
 
-Fixpoint set_nth {A} (n : nat) (x : A) (l : list A) : list A :=
+(* heaps are lists indexed by id; writing past the end pads with the default, so that
+   reading back what was written holds unconditionally *)
+Fixpoint set_nth {A} (d : A) (n : nat) (x : A) (l : list A) : list A :=
   match n, l with
+  | O, [] => [x]
   | O, _ :: t => x :: t
-  | S n', h :: t => h :: set_nth n' x t
-  | _, [] => []
+  | S n', [] => d :: set_nth d n' x []
+  | S n', h :: t => h :: set_nth d n' x t
   end.
 
 Fixpoint assoc_get {A} (k : bytes) (l : list (bytes * A)) : option A :=
@@ -44,19 +47,22 @@ Fixpoint assoc_set {A} (k : bytes) (v : A) (l : list (bytes * A)) : list (bytes 
   | (k', v') :: t => if bytes_eqb k k' then (k', v) :: t else (k', v') :: assoc_set k v t
   end.
 
-Definition get_text (w : world) (tid : nat) : textobj := nth tid (w_text w) (mktext [] None 0).
-Definition get_tmpl (w : world) (o : nat) : tmplobj := nth o (w_tmpl w) (mktmpl ENotYet 0 true 0).
-Definition get_ns (w : world) (n : nat) : nspace := nth n (w_ns w) (mknsp [] false false esc_empty).
+Definition text_d : textobj := mktext [] None 0.
+Definition tmpl_d : tmplobj := mktmpl ENotYet 0 true 0.
+Definition ns_d : nspace := mknsp [] false false esc_empty.
+Definition get_text (w : world) (tid : nat) : textobj := nth tid (w_text w) text_d.
+Definition get_tmpl (w : world) (o : nat) : tmplobj := nth o (w_tmpl w) tmpl_d.
+Definition get_ns (w : world) (n : nat) : nspace := nth n (w_ns w) ns_d.
 Definition get_common (w : world) (c : nat) : list (bytes * nat) := nth c (w_common w) [].
 
 Definition put_text (w : world) (tid : nat) (x : textobj) : world :=
-  mkworld (set_nth tid x (w_text w)) (w_common w) (w_tmpl w) (w_ns w) (w_handles w).
+  mkworld (set_nth text_d tid x (w_text w)) (w_common w) (w_tmpl w) (w_ns w) (w_handles w).
 Definition put_tmpl (w : world) (o : nat) (t : tmplobj) : world :=
-  mkworld (w_text w) (w_common w) (set_nth o t (w_tmpl w)) (w_ns w) (w_handles w).
+  mkworld (w_text w) (w_common w) (set_nth tmpl_d o t (w_tmpl w)) (w_ns w) (w_handles w).
 Definition put_ns (w : world) (n : nat) (x : nspace) : world :=
-  mkworld (w_text w) (w_common w) (w_tmpl w) (set_nth n x (w_ns w)) (w_handles w).
+  mkworld (w_text w) (w_common w) (w_tmpl w) (set_nth ns_d n x (w_ns w)) (w_handles w).
 Definition put_common (w : world) (c : nat) (m : list (bytes * nat)) : world :=
-  mkworld (w_text w) (set_nth c m (w_common w)) (w_tmpl w) (w_ns w) (w_handles w).
+  mkworld (w_text w) (set_nth [] c m (w_common w)) (w_tmpl w) (w_ns w) (w_handles w).
 Definition add_handle (w : world) (h : option nat) : world :=
   mkworld (w_text w) (w_common w) (w_tmpl w) (w_ns w) (w_handles w ++ [h]).
 
